@@ -1,5 +1,5 @@
 """C01 - running a program yields exactly what its source text denotes."""
-import glob, itertools
+import glob, itertools, os
 import vlib, runcorr, progcheck, nlast, genwf
 
 COQ_TARGETS = ["props/C01.vo", "corr/CorrSem.vo"]
@@ -72,7 +72,7 @@ def in_f1(ast):
 
 def run(ctx, log):
     rng = ctx.rng
-    progs = [open(f, encoding="utf-8").read() for f in sorted(glob.glob("/repo/examples/*.nl")) if "recursive" not in f]
+    progs = [open(f, encoding="utf-8").read() for f in sorted(glob.glob(os.path.join(vlib.REPO, "examples", "*.nl"))) if "recursive" not in f]
     progs += DIRECTED
     atoms = [("int", 1), ("int", 7), ("bool", True), ("id", "x"), ("str", "s")]
     small = []
